@@ -3,20 +3,26 @@ import GardenVerif.Lemmas.Parse
 C01 (parser half) — forward progress / no panic of the parser model M2 (repaired tree, `pn = false`).
 
 PARTIAL. Proved here, for EVERY token list and every state (no bound):
-* `goodP_parseSymbol` — the repaired `parse_symbol` never panics and never moves the index backwards
-  (on the pinned tree it un-pops a token it never popped at the end of the file: the root cause of
-  the panics at parser.rs:1995 / 2183 / 2812 on `let x: (A,` / `fun f(a,` / `let (a`);
+* `parseSymbol_near` — `parse_symbol` (code unchanged) never panics on a non-empty token list and moves
+  the index back by at most one; `parseSymbol_good` — away from the end of the file it never moves
+  back. (At the end of the file it un-pops a token it never popped: the root cause of the panics at
+  parser.rs:1995 / 2183 / 2812 on `let x: (A,` / `fun f(a,` / `let (a` and of the non-termination on
+  `let x: A<B,` / `fun f<T,` / `enum E { A,` / `Foo{ a: 1,`; repaired in the LOOPS by
+  parser-fix-eof-progress.diff, which breaks out of an iteration that made no progress.)
 * `goodP_checkRequiredToken`, `goodP_requireToken` — `check_required_token` / `require_token` (with
   their `expect("TODO: handle empty file properly")`) never panic on a non-empty token list and never
   move backwards; `goodP_pop/peek/peekIs/diag/getIdx`; the composition rules `good_bind`, `goodP_bind`
   of the invariant `Good` = "not a panic ∧ idx' ≥ idx ∧ idx' ≤ |toks|";
-* evaluated witnesses: the pinned model panics at parser.rs:328 on `(1, })` and at parser.rs:2812 on
-  `let (a`; the repaired model returns diagnostics on both (`pinned_tuple_panics`, …).
+* evaluated witnesses: the pinned model panics at parser.rs:328 on `(1, })`, at parser.rs:2812 on
+  `let (a`, 2183 on `fun f(a,`, 1995 on `let x: (A,`, the repaired model returns
+  diagnostics on all of them and on `fun f<T,` (on which the pinned parser and model never terminate:
+  driver op `parse_tokens_pinned` answers `ERR fuel`, the real binary hangs allocating).
 
 NOT proved (left out, no `sorry`): the full statement
   `parse_no_panic : ∀ fuel toks, toks ≠ [] → parseItems fuel toks ≠ panic`
 and its intended route, the mutual invariant `GoodP` for every parse function by induction on fuel
-(type-hint block with the assertion 1995; parameter / destructuring loops 2183 / 2812; the 28
+(type-hint block, parameter / destructuring loops — their former assertions 1995 / 2183 / 2812 are now
+`break`s —; the 28
 functions of the expression block with 328, 404, 1082, 1361, 2334; items loop 3067). The progress
 assertions need, besides `Good`, the strict facts "a loop iteration that reaches the assertion
 consumed a token", which follow from `Good` of the callee plus the explicit `pop` before each
@@ -109,31 +115,75 @@ theorem goodP_requireToken (toks : Toks) (hne : toks ≠ []) (x : String) : Good
   unfold requireToken
   exact goodP_bind (goodP_checkRequiredToken toks hne x) (fun a => goodP_pure _)
 
-/-- The repaired `parse_symbol` never panics and never moves back. -/
-theorem goodP_parseSymbol (toks : Toks) : GoodP toks (parseSymbol toks false) := by
-  intro s hs
+/-- Like `Good`, but the index may have moved back by one (what `parse_symbol` does at the end of the
+file: `require_a_token` hands back the previous token and the not-a-symbol / keyword-on-another-line
+branches un-pop it although it was never popped). -/
+def Near {α} (toks : Toks) (s : St) : Res α → Prop
+  | .ok _ s' => s.idx ≤ s'.idx + 1 ∧ s'.idx ≤ toks.length
+  | .panic _ => False
+  | .outOfFuel => True
+
+/-- `parse_symbol` (unchanged code) never panics on a non-empty token list; it moves back by at most
+one token. -/
+theorem parseSymbol_near (toks : Toks) (hne : toks ≠ []) (pn : Bool) (s : St) (hs : s.idx ≤ toks.length) :
+    Near toks s (parseSymbol toks pn s) := by
   unfold parseSymbol
-  simp only [bind_apply, P.bind, prev, peek, peekAt, Nat.add_zero]
   cases h : toks[s.idx]? with
-  | none => simp [diag, pure_apply, Good, bind_apply, P.bind, hs]
   | some t =>
     have hlt : s.idx < toks.length := get_lt h
-    simp only [Option.map_some, Option.isNone_some, Bool.not_false, Bool.and_false, Bool.false_eq_true, ↓reduceIte,
-      requireAToken, bind_apply, P.bind, pop, h, pure_apply]
+    simp only [bind_apply, P.bind, prev, requireAToken, pop, h, pure_apply]
     cases h1 : isSymbolTok t.text with
-    | false => simp [TokI.text, h1, diag, unpop, pure_apply, Good, bind_apply, P.bind]; omega
+    | false => simp [TokI.text, h1, diag, unpop, pure_apply, Near, bind_apply, P.bind]; omega
     | true =>
       cases h2 : keywords.contains t.text with
       | false =>
         have h3 : t.text ∉ keywords := by simpa using h2
-        simp [TokI.text, h1, h3, pure_apply, Good]; omega
+        simp [TokI.text, h1, h3, pure_apply, Near]; omega
       | true =>
-        have h3 : t.text ∈ keywords := by simpa using h2
         simp only [TokI.text, h1, h2, Bool.not_true, Bool.false_eq_true, ↓reduceIte]
         split
-        · split <;> simp [diag, unpop, pure_apply, Good, bind_apply, P.bind] <;> omega
-        · simp [diag, unpop, pure_apply, Good, bind_apply, P.bind]; omega
+        · split <;> simp [diag, unpop, pure_apply, Near, bind_apply, P.bind] <;> omega
+        · simp [diag, unpop, pure_apply, Near, bind_apply, P.bind]; omega
+  | none =>
+    by_cases h0 : s.idx = 0
+    · have : toks[0]? = none := by rw [h0] at h; exact h
+      cases toks with
+      | nil => exact absurd rfl hne
+      | cons a b => simp at this
+    · have hlt : s.idx - 1 < toks.length := by omega
+      have hp : toks[s.idx - 1]? = some toks[s.idx - 1] := List.getElem?_eq_getElem hlt
+      have hpos : 0 < s.idx := by omega
+      simp only [bind_apply, P.bind, prev, requireAToken, pop, h, h0, ↓reduceIte, hp, Option.map_some, diag,
+        pure_apply]
+      cases h1 : isSymbolTok (toks[s.idx - 1]).text with
+      | false => simp [TokI.text, h1, diag, unpop, pure_apply, Near, bind_apply, P.bind, hpos]; omega
+      | true =>
+        cases h2 : keywords.contains (toks[s.idx - 1]).text with
+        | false =>
+          have h3 : (toks[s.idx - 1]).text ∉ keywords := by simpa using h2
+          simp [TokI.text, h1, h3, pure_apply, Near]; omega
+        | true =>
+          simp only [TokI.text, h1, h2, Bool.not_true, Bool.false_eq_true, ↓reduceIte]
+          split <;> simp [diag, unpop, pure_apply, Near, bind_apply, P.bind, hpos] <;> omega
 
+/-- Away from the end of the file `parse_symbol` never moves back. -/
+theorem parseSymbol_good (toks : Toks) (pn : Bool) (s : St) (t : Tok) (h : toks[s.idx]? = some t) :
+    Good toks s (parseSymbol toks pn s) := by
+  unfold parseSymbol
+  have hlt : s.idx < toks.length := get_lt h
+  simp only [bind_apply, P.bind, prev, requireAToken, pop, h, pure_apply]
+  cases h1 : isSymbolTok t.text with
+  | false => simp [TokI.text, h1, diag, unpop, pure_apply, Good, bind_apply, P.bind]; omega
+  | true =>
+    cases h2 : keywords.contains t.text with
+    | false =>
+      have h3 : t.text ∉ keywords := by simpa using h2
+      simp [TokI.text, h1, h3, pure_apply, Good]; omega
+    | true =>
+      simp only [TokI.text, h1, h2, Bool.not_true, Bool.false_eq_true, ↓reduceIte]
+      split
+      · split <;> simp [diag, unpop, pure_apply, Good, bind_apply, P.bind] <;> omega
+      · simp [diag, unpop, pure_apply, Good, bind_apply, P.bind]; omega
 
 /-! ### Evaluated witnesses (tests, not the theorem) -/
 
@@ -152,6 +202,23 @@ def tupleToks : List Tok :=
 /-- `let (a` -/
 def letToks : List Tok := [⟨"let", true, 0, 0⟩, ⟨"(", false, 0, 0⟩, ⟨"a", true, 0, 0⟩]
 
+/-- `fun f(a,` -/
+def paramToks : List Tok :=
+  [⟨"fun", true, 0, 0⟩, ⟨"f", false, 0, 0⟩, ⟨"(", true, 0, 0⟩, ⟨"a", true, 0, 0⟩, ⟨",", true, 0, 0⟩]
+
+/-- `let x: (A,` -/
+def hintToks : List Tok :=
+  [⟨"let", true, 0, 0⟩, ⟨"x", false, 0, 0⟩, ⟨":", true, 0, 0⟩, ⟨"(", false, 0, 0⟩, ⟨"A", true, 0, 0⟩, ⟨",", true, 0, 0⟩]
+
+/-- `fun f<T,` -/
+def tparamToks : List Tok :=
+  [⟨"fun", true, 0, 0⟩, ⟨"f", false, 0, 0⟩, ⟨"<", true, 0, 0⟩, ⟨"T", true, 0, 0⟩, ⟨",", true, 0, 0⟩]
+
+theorem pinned_params_panics : isPanicAt "parser.rs:2183" (parseItemsCfg true 60 paramToks) = true := by decide
+theorem fixed_params_ok : isOk (parseItemsCfg false 60 paramToks) = true := by decide
+theorem pinned_tuple_hint_panics : isPanicAt "parser.rs:1995" (parseItemsCfg true 60 hintToks) = true := by decide
+theorem fixed_tuple_hint_ok : isOk (parseItemsCfg false 60 hintToks) = true := by decide
+theorem fixed_type_params_ok : isOk (parseItemsCfg false 60 tparamToks) = true := by decide
 theorem pinned_tuple_panics : isPanicAt "parser.rs:328" (parseItemsCfg true 60 tupleToks) = true := by decide
 theorem fixed_tuple_ok : isOk (parseItemsCfg false 60 tupleToks) = true := by decide
 theorem pinned_let_dest_panics : isPanicAt "parser.rs:2812" (parseItemsCfg true 60 letToks) = true := by decide
